@@ -390,7 +390,7 @@ func applyFaults(bar *colarspb.BatchArrowRecords, ops [][]any, retired string) (
 		if n == 0 {
 			continue
 		}
-		i = i % n
+		i = ((i % n) + n) % n // a negative index counts from the end (-1: the payload a preceding dup appended)
 		switch name {
 		case "relabel":
 			t, _ := op[2].(string)
@@ -403,7 +403,7 @@ func applyFaults(bar *colarspb.BatchArrowRecords, ops [][]any, retired string) (
 			b.ArrowPayloads = append(b.ArrowPayloads, proto.Clone(b.ArrowPayloads[i]).(*colarspb.ArrowPayload))
 			applied = append(applied, fmt.Sprintf("dup(%d)", i))
 		case "swap":
-			j := num(op[2]) % n
+			j := ((num(op[2]) % n) + n) % n
 			b.ArrowPayloads[i], b.ArrowPayloads[j] = b.ArrowPayloads[j], b.ArrowPayloads[i]
 			applied = append(applied, fmt.Sprintf("swap(%d,%d)", i, j))
 		case "empty":
@@ -427,6 +427,34 @@ func applyFaults(bar *colarspb.BatchArrowRecords, ops [][]any, retired string) (
 type Emitter struct {
 	W   *bufio.Writer
 	Seq int
+	// SW, when set, receives the payload-level protocol events validated against Stream.tla
+	SW   *bufio.Writer
+	SSeq int
+}
+
+// EmitStream writes one protocol event (uniform fields).
+func (e *Emitter) EmitStream(tr int, ev string, f map[string]any) {
+	if e.SW == nil {
+		return
+	}
+	e.SSeq++
+	rec := map[string]any{"tr": tr, "seq": e.SSeq, "ev": ev, "k": 0, "sig": "", "oc": "", "n": 0, "rows": 0,
+		"pl": []any{}, "ps": []any{}, "fp": []any{}, "cs": []any{}, "next": 0, "x": ""}
+	for k, v := range f {
+		rec[k] = v
+	}
+	b, _ := json.Marshal(rec)
+	e.SW.Write(b)
+	e.SW.WriteByte('\n')
+}
+
+func hasSchemaMsg(b []byte) bool {
+	for _, k := range msgKinds(b) {
+		if k == "schema" {
+			return true
+		}
+	}
+	return false
 }
 
 func (e *Emitter) Emit(tr int, ev string, f map[string]any) {
@@ -445,6 +473,14 @@ func (e *Emitter) Emit(tr int, ev string, f map[string]any) {
 	}
 	e.W.Write(b)
 	e.W.WriteByte('\n')
+}
+
+func toStrings(xs []any) []string {
+	out := make([]string, 0, len(xs))
+	for _, x := range xs {
+		out = append(out, fmt.Sprint(x))
+	}
+	return out
 }
 
 func boolp(b bool) int {
@@ -504,6 +540,7 @@ func RunStreamCapture(em *Emitter, tr int, st *Stream, capt *Capture) {
 		em.Emit(tr, "End", map[string]any{"oc": "producer-create-panic"})
 		return
 	}
+	em.EmitStream(tr, "Begin", map[string]any{"x": st.ID, "sig": st.Signal})
 	c := arrow_record.NewConsumer(SharedConsumerOptions...)
 	wire := NewWire()
 	healthy := true
@@ -585,6 +622,22 @@ func RunStreamCapture(em *Emitter, tr int, st *Stream, capt *Capture) {
 			ev["pl"] = pls
 		}
 		em.Emit(tr, "Encode", ev)
+		if em.SW != nil && HaveProjection {
+			sev := map[string]any{"k": k, "sig": sig, "oc": oc, "rows": boolp(itemCount(in) > 0)}
+			if oc == "ok" && bar != nil {
+				spl := []any{}
+				for _, pl := range bar.ArrowPayloads {
+					spl = append(spl, []any{sidNum(pl.SchemaId), pl.Type.String(), boolp(hasSchemaMsg(pl.Record)), boolp(len(pl.Record) > 0)})
+				}
+				sev["pl"] = spl
+				sev["n"] = int(bar.BatchId)
+			}
+			if oc != "panic" {
+				sev["ps"] = producerProjection(p)
+				sev["next"] = producerNext(p)
+			}
+			em.EmitStream(tr, "Encode", sev)
+		}
 		if oc != "ok" || bar == nil {
 			// a refused or crashed encode ends what the round-trip properties speak about
 			healthy = healthy && oc == "error"
@@ -694,6 +747,26 @@ func RunStreamCapture(em *Emitter, tr int, st *Stream, capt *Capture) {
 			dev["out"] = out
 		}
 		em.Emit(tr, "Decode", dev)
+		if em.SW != nil && HaveProjection {
+			fp := []any{}
+			for _, q := range toDecode.ArrowPayloads {
+				orig := -1 // index of the producer's payload these bytes are (emptied: the payload at the same schema id / position)
+				for i, pl := range bar.ArrowPayloads {
+					if len(q.Record) > 0 && string(q.Record) == string(pl.Record) && (orig < 0 || q.SchemaId == pl.SchemaId) {
+						orig = i
+						if q.SchemaId == pl.SchemaId {
+							break
+						}
+					}
+				}
+				fp = append(fp, []any{sidNum(q.SchemaId), q.Type.String(), orig, boolp(len(q.Record) == 0)})
+			}
+			sev := map[string]any{"k": k, "sig": sig, "oc": doc, "n": n, "fp": fp, "x": strings.Join(toStrings(faults), " ")}
+			if doc != "panic" {
+				sev["cs"] = consumerProjection(c)
+			}
+			em.EmitStream(tr, "Decode", sev)
+		}
 		if len(faults) > 0 || doc != "ok" {
 			healthy = false
 		}
